@@ -37,6 +37,8 @@ def _segment_rows(version, seg, ref):
     rows = []
     if not (isinstance(ref, tuple) and len(ref) == 2 and ref[0] == 'sequence' and isinstance(ref[1], tuple)):
         return None, 'segment reference is not ("sequence", rows): %s' % (str(ref)[:50],)
+    if len(ref[1]) == 0:
+        return None, 'segment without field rows'
     for r in ref[1]:
         ok, why = True, ''
         if len(r) != 4:
@@ -133,7 +135,7 @@ def is_base(version, dt):
 
 def _node(name, ref, card, cls, depth=0):
     if cls == 'SEG':
-        return Node(name, 'SEG', tuple(card), (), None, True)
+        return Node(name, 'SEG', tuple(card), (), None, ref is not None)
     ok = isinstance(ref, (tuple, list)) and len(ref) >= 2 and ref[0] in ('sequence', 'choice')
     children = []
     if ok:
